@@ -216,8 +216,9 @@ def r01_2(run):
         if d[0] == 'param':
             continue
         pname = qc.params[1] if len(qc.params) > 1 else cmdname
-        ok = d[0] == 'expr' and ((isinstance(d[1], ast.Call) and callee_attr(d[1]) == 'encode' and dotted(receiver(d[1])) in (cmdname, pname))
-                                 or dotted(d[1]) == pname)
+        def _plain_or_encoded(e):
+            return dotted(e) == pname or (isinstance(e, ast.Call) and callee_attr(e) == 'encode' and dotted(receiver(e)) in (cmdname, pname))
+        ok = d[0] == 'expr' and (_plain_or_encoded(d[1]) or (isinstance(d[1], ast.IfExp) and _plain_or_encoded(d[1].body) and _plain_or_encoded(d[1].orelse)))
         run.ob('R01.2', qc, d[1] if len(d) > 1 else qc.node, 'queued command is the argument, at most encoded', ok,
                slot='queue_command:cmd-def:%s' % (src(d[1])[:40] if len(d) > 1 else d[0]),
                message='queue_command rewrites the command before queueing: %s = %s' % (cmdname, src(d[1]) if len(d) > 1 else d[0]))
@@ -879,7 +880,13 @@ def r01_6(run):
                             nxt = tab.states.get(t['next'], t['next'])
                             h = t['handler']
                             hd = dotted(h) if h is not None else None
-                            role = ROLE.get(hd, 'none' if (h is None or is_none(h) or (isinstance(h, ast.Lambda) and is_none(h.body))) else 'other:%s' % src(h)[:30])
+                            noop = h is None or is_none(h) or (isinstance(h, ast.Lambda) and is_none(h.body))
+                            if not noop and hd and hd.startswith('self.') and hd not in ROLE:
+                                hm_ = run.idx.find_method(proto(run), hd[5:])
+                                if hm_ is not None:
+                                    body_ = [b_ for b_ in hm_.node.body if not (isinstance(b_, ast.Expr) and isinstance(b_.value, ast.Constant))]
+                                    noop = all(isinstance(b_, ast.Pass) or (isinstance(b_, ast.Return) and (b_.value is None or is_none(b_.value))) for b_ in body_)
+                            role = ROLE.get(hd, 'none' if noop else 'other:%s' % src(h)[:30])
                             res = ('fire', (nxt, role), t)
                             break
                     outcomes.setdefault((res[0], res[1]), (line_, res[2]))
